@@ -64,6 +64,11 @@ def run_scenario(sc: dict[str, Any]) -> dict[str, Any]:
         tune = dict(peering__lifetime=20, watching__reconnect_backoff=1, networking__error_backoffs=[1])
         if sc.get('wlimit'):
             tune['queueing__worker_limit'] = sc['wlimit']
+        if sc.get('plag'):       # the answers to the PATCHes of the peering object are late: a stop can land while the first
+            from sim.fakek8s import Plan          # keep-alive is applied by the server but not yet answered
+            prev_policy = sim.srv.policy
+            sim.srv.policy = lambda req: (Plan(post=sc['plag']) if req.route.get('plural') == PEER and req.route.get('kind') == 'patch'
+                                          else (prev_policy(req) if prev_policy else None))
         op = sim.operator(OP, reg, sim.settings(**tune), **kw)
 
         async def watch_ready() -> None:
@@ -249,6 +254,12 @@ def crafted() -> list[dict[str, Any]]:
             out.append({'id': f'crafted-nsdel-{kind}-{d_edit}-{d_stop}', 'startup': [], 'cleanup': [['ok']], 'sdur': 0, 'cdur': 1, 'peering': False,
                         'nobj': 1, 'dmode': 'obey', 'trigger': (kind, t + d_stop), 'fault': None, 'bound': 20, 'end': 60,
                         'edits': [(t - d_edit, 'q0')], 'hdur': 3, 'ns2': True, 'nsdel': t})
+    # the operator is stopped while its first keep-alive is applied by the server but not yet answered: the record is withdrawn all the same
+    for kind in ('stop', 'cancel'):
+        for plag, t in ((2, 1), (3, 1), (3, 2), (2, 0)):
+            out.append({'id': f'crafted-early-{kind}-{plag}-{t}', 'startup': [], 'cleanup': [['ok']], 'sdur': 0, 'cdur': 0, 'peering': True, 'plag': plag,
+                        'nobj': 0, 'dmode': 'obey', 'trigger': (kind, t), 'fault': None, 'bound': 24, 'end': 60,
+                        'edits': [], 'hdur': 0, 'ns2': False, 'nsdel': None})
     # a saturated worker limit at the moment of the stop: handlers in flight on `limit` objects, more objects queued
     for kind in ('stop', 'cancel'):
         for lim, d_stop in ((1, 1), (1, 0), (2, 1)):
